@@ -143,13 +143,8 @@ Fixpoint pairs {A} (l : list A) : list (A * A) :=
 
 Definition gname (g : gval) : bytes := match g with GAny (Some (_, GStr s)) => s | _ => [] end.
 
-(* toComparable: a []byte key becomes a byte array *)
-(* (the scrutinee is not a variable so that the match is compiled exactly as in the model) *)
-Definition to_cmp (k : gval) : gval :=
-  match fst (k, tt) with
-  | GAny (Some (TBytes, GBytes _ s)) => GAny (Some (TByteArray (length s), GBytes false s))
-  | k => k
-  end.
+(* toComparable: a []byte key becomes a byte array (the model's own [to_comparable]) *)
+Definition to_cmp (k : gval) : gval := to_comparable k.
 
 Definition dfields (l : list gval) : list (bytes * bool * ty) :=
   map (fun p => (gname (fst p), true, dyn_ty (snd p))) (pairs l).
